@@ -19,10 +19,10 @@ import SpsdkVerif.Crypto.Iface
 import SpsdkVerif.Crypto.Modes
 
 namespace SpsdkVerif.Ahab
-open SpsdkVerif SpsdkVerif.Misc SpsdkVerif.Crypto
+open SpsdkVerif SpsdkVerif.Misc
+open SpsdkVerif.Crypto (HashAlg CryptoOps cbcEnc zeroPad16)
 open SpsdkVerif.Generated
 
-abbrev G := SpsdkVerif.Generated.AhabConsts
 
 /-! ## `struct.pack` / `unpack` for little-endian integer layouts -/
 
@@ -67,28 +67,28 @@ inductive Ver where
   | v1 | v2
   deriving DecidableEq, Repr, Inhabited
 
-def Ver.containerSize : Ver → Nat | .v1 => G.containerSizeV1 | .v2 => G.containerSizeV2
-def Ver.containerVersion : Ver → Nat | .v1 => G.containerVersionV1 | .v2 => G.containerVersionV2
-def Ver.sigBlockVersion : Ver → Nat | .v1 => G.sigBlockVersionV1 | .v2 => G.sigBlockVersionV2
-def Ver.startAddr : Ver → Nat | .v1 => G.startImageAddrV1 | .v2 => G.startImageAddrV2
-def Ver.startAddrNand : Ver → Nat | .v1 => G.startImageAddrNandV1 | .v2 => G.startImageAddrNandV2
-def Ver.hdrLayout : Ver → G.Layout | .v1 => G.containerLayout | .v2 => G.containerV2Layout
-def Ver.iaeLayout : Ver → G.Layout | .v1 => G.iaeLayout | .v2 => G.iaeV2Layout
-def Ver.sbLayout : Ver → G.Layout | .v1 => G.sigBlockLayout | .v2 => G.sigBlockV2Layout
-def Ver.hashOff : Ver → Nat | .v1 => G.iFlagsHashOffsetV1 | .v2 => G.iFlagsHashOffsetV2
-def Ver.hashSize : Ver → Nat | .v1 => G.iFlagsHashSizeV1 | .v2 => G.iFlagsHashSizeV2
-def Ver.encOff : Ver → Nat | .v1 => G.iFlagsIsEncryptedOffsetV1 | .v2 => G.iFlagsIsEncryptedOffsetV2
-def Ver.encSize : Ver → Nat | .v1 => G.iFlagsIsEncryptedSizeV1 | .v2 => G.iFlagsIsEncryptedSizeV2
-def Ver.typeOff : Ver → Nat | .v1 => G.iFlagsTypeOffsetV1 | .v2 => G.iFlagsTypeOffsetV2
-def Ver.typeSize : Ver → Nat | .v1 => G.iFlagsTypeSizeV1 | .v2 => G.iFlagsTypeSizeV2
-def Ver.coreOff : Ver → Nat | .v1 => G.iFlagsCoreIdOffsetV1 | .v2 => G.iFlagsCoreIdOffsetV2
-def Ver.coreSize : Ver → Nat | .v1 => G.iFlagsCoreIdSizeV1 | .v2 => G.iFlagsCoreIdSizeV2
-def Ver.bootOff : Ver → Nat | .v1 => G.iFlagsBootFlagsOffsetV1 | .v2 => G.iFlagsBootFlagsOffsetV2
-def Ver.bootSize : Ver → Nat | .v1 => G.iFlagsBootFlagsSizeV1 | .v2 => G.iFlagsBootFlagsSizeV2
+def Ver.containerSize : Ver → Nat | .v1 => AhabConsts.containerSizeV1 | .v2 => AhabConsts.containerSizeV2
+def Ver.containerVersion : Ver → Nat | .v1 => AhabConsts.containerVersionV1 | .v2 => AhabConsts.containerVersionV2
+def Ver.sigBlockVersion : Ver → Nat | .v1 => AhabConsts.sigBlockVersionV1 | .v2 => AhabConsts.sigBlockVersionV2
+def Ver.startAddr : Ver → Nat | .v1 => AhabConsts.startImageAddrV1 | .v2 => AhabConsts.startImageAddrV2
+def Ver.startAddrNand : Ver → Nat | .v1 => AhabConsts.startImageAddrNandV1 | .v2 => AhabConsts.startImageAddrNandV2
+def Ver.hdrLayout : Ver → AhabConsts.Layout | .v1 => AhabConsts.containerLayout | .v2 => AhabConsts.containerV2Layout
+def Ver.iaeLayout : Ver → AhabConsts.Layout | .v1 => AhabConsts.iaeLayout | .v2 => AhabConsts.iaeV2Layout
+def Ver.sbLayout : Ver → AhabConsts.Layout | .v1 => AhabConsts.sigBlockLayout | .v2 => AhabConsts.sigBlockV2Layout
+def Ver.hashOff : Ver → Nat | .v1 => AhabConsts.iFlagsHashOffsetV1 | .v2 => AhabConsts.iFlagsHashOffsetV2
+def Ver.hashSize : Ver → Nat | .v1 => AhabConsts.iFlagsHashSizeV1 | .v2 => AhabConsts.iFlagsHashSizeV2
+def Ver.encOff : Ver → Nat | .v1 => AhabConsts.iFlagsIsEncryptedOffsetV1 | .v2 => AhabConsts.iFlagsIsEncryptedOffsetV2
+def Ver.encSize : Ver → Nat | .v1 => AhabConsts.iFlagsIsEncryptedSizeV1 | .v2 => AhabConsts.iFlagsIsEncryptedSizeV2
+def Ver.typeOff : Ver → Nat | .v1 => AhabConsts.iFlagsTypeOffsetV1 | .v2 => AhabConsts.iFlagsTypeOffsetV2
+def Ver.typeSize : Ver → Nat | .v1 => AhabConsts.iFlagsTypeSizeV1 | .v2 => AhabConsts.iFlagsTypeSizeV2
+def Ver.coreOff : Ver → Nat | .v1 => AhabConsts.iFlagsCoreIdOffsetV1 | .v2 => AhabConsts.iFlagsCoreIdOffsetV2
+def Ver.coreSize : Ver → Nat | .v1 => AhabConsts.iFlagsCoreIdSizeV1 | .v2 => AhabConsts.iFlagsCoreIdSizeV2
+def Ver.bootOff : Ver → Nat | .v1 => AhabConsts.iFlagsBootFlagsOffsetV1 | .v2 => AhabConsts.iFlagsBootFlagsOffsetV2
+def Ver.bootSize : Ver → Nat | .v1 => AhabConsts.iFlagsBootFlagsSizeV1 | .v2 => AhabConsts.iFlagsBootFlagsSizeV2
 
 /-- `get_container_offset(ix)` (translated from the source) as a natural number -/
 def Ver.containerOffset (v : Ver) (ix : Nat) : PyRes Nat :=
-  match (match v with | .v1 => G.containerOffsetV1 ix | .v2 => G.containerOffsetV2 ix) with
+  match (match v with | .v1 => AhabConsts.containerOffsetV1 ix | .v2 => AhabConsts.containerOffsetV2 ix) with
   | .ok r => .ok r.toNat
   | .error e => .error e
 
@@ -96,25 +96,25 @@ def Ver.containerOffset (v : Ver) (ix : Nat) : PyRes Nat :=
 
 /-- target memory labels of `AhabTargetMemory` -/
 structure Chip where
-  row : G.Chip
+  row : AhabConsts.Chip
   targetMemory : String
   deriving Repr
 
-def findChip (family revision : String) : Option G.Chip :=
-  G.chips.find? (fun r => r.family == family && r.revision == revision)
+def findChip (family revision : String) : Option AhabConsts.Chip :=
+  AhabConsts.chips.find? (fun r => r.family == family && r.revision == revision)
 
 def Chip.isNand (ch : Chip) : Bool := ch.targetMemory == "nand_2k" || ch.targetMemory == "nand_4k"
 def Chip.isSerial (ch : Chip) : Bool := ch.targetMemory == "serial_downloader"
 
 /-- `BINARY_IMAGE_ALIGNMENTS[target_memory]` (0 when the label is unknown: the constructor refuses it) -/
 def Chip.binaryAlignment (ch : Chip) : Nat :=
-  match G.binaryImageAlignments.find? (fun p => p.1 == ch.targetMemory) with
+  match AhabConsts.binaryImageAlignments.find? (fun p => p.1 == ch.targetMemory) with
   | some p => p.2
   | none => 0
 
 /-- alignment of the whole image: `CONTAINER_ALIGNMENT` for serial downloader, else `container_image_size_alignment` -/
 def Chip.imageAlignment (ch : Chip) : Nat :=
-  if ch.isSerial then G.containerAlignment else ch.row.imageSizeAlign
+  if ch.isSerial then AhabConsts.containerAlignment else ch.row.imageSizeAlign
 
 /-- `start_recommended_image_address` -/
 def Chip.startAddr (ch : Chip) (v : Ver) : Nat := if ch.isNand then v.startAddrNand else v.startAddr
@@ -141,18 +141,18 @@ structure Iae where
   loadAddress : Nat
   entryPoint : Nat
   flags : Nat
-  meta : Nat
+  metaData : Nat
   hash : Bytes
   iv : Bytes
   deriving Repr, DecidableEq
 
-def hashFieldLen (l : G.Layout) : Nat := match l.strFields with | (_, n) :: _ => n | [] => 0
-def ivFieldLen (l : G.Layout) : Nat := match l.strFields with | _ :: (_, n) :: _ => n | _ => 0
+def hashFieldLen (l : AhabConsts.Layout) : Nat := match l.strFields with | (_, n) :: _ => n | [] => 0
+def ivFieldLen (l : AhabConsts.Layout) : Nat := match l.strFields with | _ :: (_, n) :: _ => n | _ => 0
 
-def Iae.ints (e : Iae) : List Nat := [e.imageOffset, e.imageSize, e.loadAddress, e.entryPoint, e.flags, e.meta]
+def Iae.ints (e : Iae) : List Nat := [e.imageOffset, e.imageSize, e.loadAddress, e.entryPoint, e.flags, e.metaData]
 
 /-- `ImageArrayEntry.export()` -/
-def encodeIae (l : G.Layout) (e : Iae) : PyRes Bytes :=
+def encodeIae (l : AhabConsts.Layout) (e : Iae) : PyRes Bytes :=
   match packChecked l.intWidths e.ints with
   | .error err => .error err
   | .ok b => .ok (b ++ fitS (hashFieldLen l) e.hash ++ fitS (ivFieldLen l) e.iv)
@@ -160,7 +160,7 @@ def encodeIae (l : G.Layout) (e : Iae) : PyRes Bytes :=
 def intsLen (ws : List Nat) : Nat := ws.foldr (· + ·) 0
 
 /-- the field part of `ImageArrayEntry.parse` -/
-def decodeIae (l : G.Layout) (b : Bytes) : Option Iae :=
+def decodeIae (l : AhabConsts.Layout) (b : Bytes) : Option Iae :=
   if b.length < l.size then none else
   match unpackInts l.intWidths b with
   | some [o, s, la, ep, fl, md] =>
@@ -181,7 +181,7 @@ structure Entry where
   loadAddress : Nat
   entryPoint : Nat
   flags : Nat
-  meta : Nat
+  metaData : Nat
   gapAfter : Nat
   sizeAlign : Nat         -- `image_size_alignment` (0 = None)
   deriving Repr, DecidableEq
@@ -218,7 +218,7 @@ def readyEntry (c : CryptoOps) (ch : Chip) (v : Ver) (dek : Option Bytes) (e : E
   let plain := storedImage ch e.data
   let enc := Iae.isEncrypted v e.flags
   -- constructor: IV = SHA-256(plain image) for encrypted entries, zeros otherwise
-  let iv : Bytes := if enc then c.hash .sha256 plain else zerosB G.iaeIvLen
+  let iv : Bytes := if enc then c.hash .sha256 plain else zerosB AhabConsts.iaeIvLen
   -- step 1: `blob.encrypt_data(image_iv[16:], plain_image)` = AES-CBC over the zero-padded image
   let image : Bytes := match enc, dek with
     | true, some k => cbcEnc c k (iv.drop 16) (zeroPad16 plain)
@@ -227,7 +227,7 @@ def readyEntry (c : CryptoOps) (ch : Chip) (v : Ver) (dek : Option Bytes) (e : E
   match hashAlgOfTag (Iae.hashTag v e.flags) with
   | none => .error .spsdk      -- hash algorithms outside SHA-2 are not modelled
   | some a =>
-    .ok ⟨image, size, extendTo G.iaeHashLen (c.hash a (extendTo size image)), iv⟩
+    .ok ⟨image, size, extendTo AhabConsts.iaeHashLen (c.hash a (extendTo size image)), iv⟩
 
 /-! ## SRK record / table (container version 1) -/
 
@@ -241,26 +241,26 @@ structure SrkRecord where
   deriving Repr, DecidableEq
 
 def keySizes (ks : Nat) : Option (Nat × Nat) :=
-  (G.srkKeySizes.find? (fun t => t.1 == ks)).map (fun t => (t.2.1, t.2.2))
+  (AhabConsts.srkKeySizes.find? (fun t => t.1 == ks)).map (fun t => (t.2.1, t.2.2))
 
 /-- `SRKRecord.export()`; an unknown key size is an SPSDKError (`parameter_lengths`) -/
 def encodeSrkRecord (r : SrkRecord) : PyRes Bytes :=
   match keySizes r.keySize with
   | none => .error .spsdk
   | some (l1, l2) =>
-    match packChecked G.srkRecordLayout.intWidths [G.srkRecordTag, r.length, r.signAlg, r.hashAlg, r.keySize, G.reserved, r.srkFlags] with
+    match packChecked AhabConsts.srkRecordLayout.intWidths [AhabConsts.srkRecordTag, r.length, r.signAlg, r.hashAlg, r.keySize, AhabConsts.reserved, r.srkFlags] with
     | .error e => .error e
     | .ok hdr =>
       if fits [2, 2] [l1, l2] then .ok (hdr ++ packInts [2, 2] [l1, l2] ++ r.params) else .error .other
 
 /-- `SRKRecord.parse(data)`: head check (tag, algorithm in the enum, declared length available), parameter lengths -/
 def decodeSrkRecord (b : Bytes) : Option SrkRecord :=
-  let fl := G.srkRecordLayout.size
+  let fl := AhabConsts.srkRecordLayout.size
   if b.length < fl then none else
-  match unpackInts G.srkRecordLayout.intWidths b with
+  match unpackInts AhabConsts.srkRecordLayout.intWidths b with
   | some [tag, len, alg, hsh, ks, _res, fl8] =>
-    if tag ≠ G.srkRecordTag ∨ !(G.srkRecordVersions.contains alg) ∨ b.length < len then none else
-    match unpackInts [2, 2] (b.drop (intsLen G.srkRecordLayout.intWidths)) with
+    if tag ≠ AhabConsts.srkRecordTag ∨ !(AhabConsts.srkRecordVersions.contains alg) ∨ b.length < len then none else
+    match unpackInts [2, 2] (b.drop (intsLen AhabConsts.srkRecordLayout.intWidths)) with
     | some [l1, l2] =>
       if l1 + l2 + fl > len then none
       else some ⟨alg, hsh, ks, fl8, len, (b.drop fl).take (l1 + l2)⟩
@@ -282,7 +282,7 @@ def encodeRecords : List SrkRecord → PyRes Bytes
 
 /-- `SRKTable.export()` -/
 def encodeSrkTable (t : SrkTable) : PyRes Bytes :=
-  match packChecked G.srkTableLayout.intWidths [G.srkTableTag, t.length, G.srkTableVersion], encodeRecords t.records with
+  match packChecked AhabConsts.srkTableLayout.intWidths [AhabConsts.srkTableTag, t.length, AhabConsts.srkTableVersion], encodeRecords t.records with
   | .ok h, .ok b => .ok (h ++ b)
   | .error e, _ => .error e
   | _, .error e => .error e
@@ -296,19 +296,19 @@ def decodeRecordsAt (b : Bytes) (recSize : Nat) : Nat → Nat → Option (List S
 
 /-- `SRKTable.parse(data)` -/
 def decodeSrkTable (b : Bytes) : Option SrkTable :=
-  let fl := G.srkTableLayout.size
+  let fl := AhabConsts.srkTableLayout.size
   if b.length < fl then none else
-  match unpackInts G.srkTableLayout.intWidths b with
+  match unpackInts AhabConsts.srkTableLayout.intWidths b with
   | some [tag, len, ver] =>
-    if tag ≠ G.srkTableTag ∨ ver ≠ G.srkTableVersion ∨ b.length < len ∨ len < fl then none
-    else if (len - fl) % G.srkRecordsCnt ≠ 0 then none
-    else (decodeRecordsAt b ((len - fl) / G.srkRecordsCnt) G.srkRecordsCnt fl).map (fun rs => ⟨len, rs⟩)
+    if tag ≠ AhabConsts.srkTableTag ∨ ver ≠ AhabConsts.srkTableVersion ∨ b.length < len ∨ len < fl then none
+    else if (len - fl) % AhabConsts.srkRecordsCnt ≠ 0 then none
+    else (decodeRecordsAt b ((len - fl) / AhabConsts.srkRecordsCnt) AhabConsts.srkRecordsCnt fl).map (fun rs => ⟨len, rs⟩)
   | _ => none
 
 /-- lengths as `update_fields` computes them: record = fixed part + parameters, table = header + records -/
-def SrkRecord.computedLength (r : SrkRecord) : Nat := G.srkRecordLayout.size + r.params.length
+def SrkRecord.computedLength (r : SrkRecord) : Nat := AhabConsts.srkRecordLayout.size + r.params.length
 def SrkTable.computedLength (rs : List SrkRecord) : Nat :=
-  G.srkTableLayout.size + (rs.map SrkRecord.computedLength).foldr (· + ·) 0
+  AhabConsts.srkTableLayout.size + (rs.map SrkRecord.computedLength).foldr (· + ·) 0
 
 /-- `SRKTable.compute_srk_hash()` = SHA-256 of the exported table -/
 def srkTableHash (c : CryptoOps) (tableBytes : Bytes) : Bytes := c.hash .sha256 tableBytes
@@ -318,11 +318,11 @@ def srkTableHash (c : CryptoOps) (tableBytes : Bytes) : Bytes := c.hash .sha256 
 /-- `ContainerSignature.export()` for signature data `s` (`len(self) = 8 + len(s)`; empty data = no container) -/
 def encodeSignature (s : Bytes) : PyRes Bytes :=
   if s.isEmpty then .ok [] else
-  match packChecked G.signatureLayout.intWidths [G.signatureVersion, G.signatureLayout.size + s.length, G.signatureTag, G.reserved] with
+  match packChecked AhabConsts.signatureLayout.intWidths [AhabConsts.signatureVersion, AhabConsts.signatureLayout.size + s.length, AhabConsts.signatureTag, AhabConsts.reserved] with
   | .ok h => .ok (h ++ s)
   | .error e => .error e
 
-def signatureLen (s : Bytes) : Nat := if s.isEmpty then 0 else G.signatureLayout.size + s.length
+def signatureLen (s : Bytes) : Nat := if s.isEmpty then 0 else AhabConsts.signatureLayout.size + s.length
 
 structure Blob where
   flags : Nat
@@ -336,7 +336,7 @@ structure Blob where
 
 /-- `AhabBlob.export()` -/
 def encodeBlob (b : Blob) : PyRes Bytes :=
-  match packChecked G.blobLayout.intWidths [G.blobVersion, b.length, G.blobTag, b.flags, b.size / 8, b.algorithm, b.mode] with
+  match packChecked AhabConsts.blobLayout.intWidths [AhabConsts.blobVersion, b.length, AhabConsts.blobTag, b.flags, b.size / 8, b.algorithm, b.mode] with
   | .ok h => .ok (h ++ b.keyblob)
   | .error e => .error e
 
@@ -358,7 +358,7 @@ structure SbOffsets where
   length : Nat
   deriving Repr, DecidableEq
 
-def al8 (n : Nat) : Nat := alignNat n G.containerAlignment
+def al8 (n : Nat) : Nat := alignNat n AhabConsts.containerAlignment
 
 /-- one step of `update_fields`: place a block of `size` bytes (0 = absent) after the previous one -/
 def sbStep (aligned : Bool) (st : Nat × Nat) (size : Nat) : Nat × (Nat × Nat) :=
@@ -391,8 +391,8 @@ def blitB (buf : Bytes) (off : Nat) (d : Bytes) : Bytes :=
 
 /-- `SignatureBlock[V2].export()` with the offsets `o` stored in the object -/
 def encodeSigBlock (v : Ver) (sb : SigBlock) (o : SbOffsets) : PyRes Bytes :=
-  let keyId := match sb.blob with | some b => b.keyIdentifier | none => G.reserved
-  match packChecked (v.sbLayout).intWidths [v.sigBlockVersion, o.length, G.sigBlockTag, o.certOff, o.srkOff, o.sigOff, o.blobOff, keyId],
+  let keyId := match sb.blob with | some b => b.keyIdentifier | none => AhabConsts.reserved
+  match packChecked (v.sbLayout).intWidths [v.sigBlockVersion, o.length, AhabConsts.sigBlockTag, o.certOff, o.srkOff, o.sigOff, o.blobOff, keyId],
         encodeSignature sb.signature, encodeSignature sb.signature2,
         (match sb.blob with | some b => encodeBlob b | none => .ok []) with
   | .ok hdr, .ok sg, .ok sg2, .ok bl =>
@@ -418,14 +418,14 @@ structure Container where
   dek : Option Bytes       -- DEK of the blob (used to encrypt images)
   deriving Repr, DecidableEq
 
-def Container.srkSet (c : Container) : Nat := getF c.flags G.cFlagsSrkSetOffset G.cFlagsSrkSetSize
-def Container.usedSrkId (c : Container) : Nat := getF c.flags G.cFlagsUsedSrkIdOffset G.cFlagsUsedSrkIdSize
-def Container.revokeMask (c : Container) : Nat := getF c.flags G.cFlagsSrkRevokeMaskOffset G.cFlagsSrkRevokeMaskSize
+def Container.srkSet (c : Container) : Nat := getF c.flags AhabConsts.cFlagsSrkSetOffset AhabConsts.cFlagsSrkSetSize
+def Container.usedSrkId (c : Container) : Nat := getF c.flags AhabConsts.cFlagsUsedSrkIdOffset AhabConsts.cFlagsUsedSrkIdSize
+def Container.revokeMask (c : Container) : Nat := getF c.flags AhabConsts.cFlagsSrkRevokeMaskOffset AhabConsts.cFlagsSrkRevokeMaskSize
 
 /-- `set_flags(srk_set, used_srk_id, srk_revoke_mask)` plus the glitch-detector field of `_load_from_config_flags` -/
 def containerFlags (srkSet usedSrkId revokeMask gdet : Nat) : Nat :=
-  srkSet ||| (usedSrkId <<< G.cFlagsUsedSrkIdOffset) ||| (revokeMask <<< G.cFlagsSrkRevokeMaskOffset)
-    ||| (gdet <<< G.cFlagsGdetEnableOffset)
+  srkSet ||| (usedSrkId <<< AhabConsts.cFlagsUsedSrkIdOffset) ||| (revokeMask <<< AhabConsts.cFlagsSrkRevokeMaskOffset)
+    ||| (gdet <<< AhabConsts.cFlagsGdetEnableOffset)
 
 /-- `_signature_block_offset` for `n` images -/
 def sigBlockOffset (v : Ver) (n : Nat) : Nat := al8 ((v.hdrLayout).size + n * (v.iaeLayout).size)
@@ -435,7 +435,7 @@ def headerLength (v : Ver) (n : Nat) (sbLen : Nat) : Nat := (v.hdrLayout).size +
 
 /-- the 16-byte container header (`AHABContainerBase._export`) -/
 def encodeHeader (v : Ver) (length flags sw fuse nImages sbOff : Nat) : PyRes Bytes :=
-  packChecked (v.hdrLayout).intWidths [v.containerVersion, length, G.containerTag, flags, sw, fuse, nImages, sbOff, G.reserved]
+  packChecked (v.hdrLayout).intWidths [v.containerVersion, length, AhabConsts.containerTag, flags, sw, fuse, nImages, sbOff, AhabConsts.reserved]
 
 structure Header where
   version : Nat
@@ -453,11 +453,11 @@ def decodeHeader (v : Ver) (b : Bytes) : Option Header :=
   if b.length < (v.hdrLayout).size then none else
   match unpackInts (v.hdrLayout).intWidths b with
   | some [ver, len, tag, fl, sw, fu, n, sbo, _r] =>
-    if tag ≠ G.containerTag ∨ ver ≠ v.containerVersion ∨ b.length < len then none
+    if tag ≠ AhabConsts.containerTag ∨ ver ≠ v.containerVersion ∨ b.length < len then none
     else some ⟨ver, len, tag, fl, sw, fu, n, sbo⟩
   | _ => none
 
-def encodeIaes (l : G.Layout) : List Iae → PyRes Bytes
+def encodeIaes (l : AhabConsts.Layout) : List Iae → PyRes Bytes
   | [] => .ok []
   | e :: es =>
     match encodeIae l e, encodeIaes l es with
@@ -465,7 +465,7 @@ def encodeIaes (l : G.Layout) : List Iae → PyRes Bytes
     | .error err, _ => .error err
     | _, .error err => .error err
 
-def decodeIaes (l : G.Layout) (b : Bytes) : Nat → Nat → Option (List Iae)
+def decodeIaes (l : AhabConsts.Layout) (b : Bytes) : Nat → Nat → Option (List Iae)
   | 0, _ => some []
   | n + 1, off =>
     match decodeIae l (b.drop off), decodeIaes l b n (off + l.size) with
@@ -539,7 +539,7 @@ structure UContainer where
 
 def mkPlaced (base : Nat) : List (Entry × Ready) → List Nat → List Placed
   | (e, r) :: es, o :: os =>
-    ⟨r, o, ⟨o - base, r.size, e.loadAddress, e.entryPoint, e.flags, e.meta, r.hash, r.iv⟩⟩ :: mkPlaced base es os
+    ⟨r, o, ⟨o - base, r.size, e.loadAddress, e.entryPoint, e.flags, e.metaData, r.hash, r.iv⟩⟩ :: mkPlaced base es os
   | _, _ => []
 
 /-- `AHABImage.update_fields()` without the signing step (signatures are inputs of the model) -/
